@@ -25,6 +25,14 @@ every check (`LenaModel/Gen/C20Facts.lean`).  What is modelled:
   docstring of the translator: *assumed* bindings.)  A local bound only by import statements
   has an identifier of its own, distinct from the global of the same spelling.
 
+* **the environment**: a third-party module that import-time code imports (`jinja2`) may or may
+  not be importable — `Facts.absent` says which are not; its import (`ext`) then raises
+  `ImportError`, which unwinds the events up to the handler of the innermost enclosing
+  `try … except ImportError` (`tryBegin/tryExcept/tryEnd`), through the importing modules if
+  necessary (a module whose code raised is removed from `sys.modules`: status `failed`, executed
+  afresh by the next import); `resolvesAllEnvs` runs the whole check in every environment of
+  `Facts.envs`.
+
 Identifiers are interned by the translator: `Name` and `ModId` are natural numbers; names below
 `Facts.nBuiltins` are `dir(builtins)`.  The interpreter state (all module `__dict__`s and
 `sys.modules`) is kept in two natural numbers used as arrays of fixed-width slots
@@ -65,6 +73,15 @@ inductive Ev where
   /-- start / end of a region that may not be executed: its effects are dropped at `leave` -/
   | enter
   | leave
+  /-- module-level `import x` of the third-party module `x`: `ImportError` if the environment
+  does not have it (`Facts.absent`), nothing otherwise (the names it binds follow as `bind`s) -/
+  | ext (x : Nat)
+  /-- `try:` … `tryExcept` … `tryEnd`: a `try` statement with a handler that catches
+  `ImportError`; between `tryBegin` and `tryExcept` the body (and the `else` part), between
+  `tryExcept` and `tryEnd` the handler -/
+  | tryBegin
+  | tryExcept
+  | tryEnd
   deriving DecidableEq, Repr, Inhabited
 
 /-- a function, method or lambda body (call-time code) -/
@@ -99,6 +116,12 @@ structure Facts where
   nNames : Nat
   /-- width of a slot in bits: `2 ^ slotBits ≥ mods.length + 2` -/
   slotBits : Nat
+  /-- **the environment**: bit `x` is set iff the third-party module `x` cannot be imported -/
+  absent : Nat
+  /-- the environments the check ranges over (values for `absent`): every subset of the
+  third-party modules that module-level code imports (or, when there are many: as installed,
+  none absent, each one absent, all absent) -/
+  envs : List Nat
   deriving Repr, Inhabited
 
 /-- the failures the property is about (plus the two ways the interpreter itself can give up) -/
@@ -116,9 +139,10 @@ inductive Err where
   deriving DecidableEq, Repr, Inhabited
 
 inductive Status where
-  | absent   -- not in sys.modules
+  | absent   -- never put into sys.modules
   | running  -- in sys.modules, its code is being executed (partially initialised)
-  | done
+  | done     -- in sys.modules, fully initialised
+  | failed   -- its code raised ImportError: removed from sys.modules again (a later import retries)
   deriving DecidableEq, Repr, Inhabited
 
 /-! ## State
@@ -145,12 +169,14 @@ def encodeVal : Option Val → Nat
 def decodeStatus : Nat → Status
   | 0 => .absent
   | 1 => .running
-  | _ => .done
+  | 2 => .done
+  | _ => .failed
 
 def encodeStatus : Status → Nat
   | .absent => 0
   | .running => 1
   | .done => 2
+  | .failed => 3
 
 /-- make the kernel evaluate a number before it is passed on (`forceNat n k = k n`) -/
 def forceNat {α : Sort _} (n : Nat) (k : Nat → α) : α :=
@@ -187,6 +213,11 @@ interpreter every step reads the state, which evaluates it anyway -/
 def force {α : Sort _} (σ : State) (k : State → α) : α :=
   forceNat σ.status (fun a => forceNat σ.slots (fun b => k ⟨a, b⟩))
 
+/-- forget the namespace of module `m` (a module whose import failed is executed afresh) -/
+def clearRow (F : Facts) (σ : State) (m : ModId) : State :=
+  { σ with slots := σ.slots ^^^
+      (((σ.slots >>> slotIx F m 0) &&& (2 ^ (F.slotBits * F.nNames) - 1)) <<< slotIx F m 0) }
+
 /-- nothing imported, nothing bound -/
 def init : State := ⟨0, 0⟩
 
@@ -222,6 +253,12 @@ def childOf (F : Facts) (p : ModId) (n : Name) : Option ModId := findChild p n F
 def isBuiltin (F : Facts) (n : Name) : Bool := Nat.blt n F.nBuiltins
 
 def isPriv (F : Facts) (n : Name) : Bool := F.priv.any (fun k => Nat.beq k n)
+
+/-- the third-party module `x` cannot be imported in this environment -/
+def isAbsent (F : Facts) (x : Nat) : Bool := Nat.testBit F.absent x
+
+/-- the same tree in another environment -/
+def withEnv (F : Facts) (env : Nat) : Facts := { F with absent := env }
 
 /-- bound on the nesting depth of imports (a module being executed is never executed again) -/
 def depth (F : Facts) : Nat := F.mods.length + 2
@@ -289,121 +326,196 @@ def starNames (F : Facts) (σ : State) (m : ModId) : List Name :=
 def bindIn (F : Facts) (sc : Scope) (loc : Ns) (σ : State) (n : Name) (v : Val) : State × Ns :=
   if sc.fn.isSome then (σ, bindNs n v loc) else (σ.set F sc.mod n (some v), loc)
 
-/-- the result of executing code: the new global state and the import-bound locals -/
-abbrev Res := Except Err (State × Ns)
+/-- the result of executing code: the new global state, the import-bound locals, and the
+third-party module whose absence made the code raise an `ImportError` that nothing caught -/
+structure Out where
+  σ : State
+  loc : Ns
+  exc : Option Nat
+  deriving Repr, Inhabited
+
+abbrev Res := Except Err Out
+
+/-- the import machinery as the interpreter of events sees it: the state after the import and
+the uncaught `ImportError` (absent third-party module), if any -/
+abbrev Imp := ModId → State → Except Err (State × Option Nat)
+
+def outOf (p : State × Ns) (exc : Option Nat) : Out := ⟨p.1, p.2, exc⟩
 
 /-- `from m import n as asn`: attribute, else submodule (imported by `imp` if necessary) -/
-def execFrom (F : Facts) (imp : ModId → State → Except Err State) (sc : Scope)
+def execFrom (F : Facts) (imp : Imp) (sc : Scope)
     (m : ModId) (n asn : Name) (loc : Ns) (σ : State) : Res :=
   match σ.get F m n with
-  | some v => .ok (bindIn F sc loc σ asn v)
+  | some v => .ok (outOf (bindIn F sc loc σ asn v) none)
   | none =>
     match F.childOf m n with
     | none => .error (.importError sc.mod sc.fn m n)
     | some c =>
       match imp c σ with
       | .error e => .error e
-      | .ok σ' =>
+      | .ok (σ', some x) => .ok ⟨σ', loc, some x⟩
+      | .ok (σ', none) =>
         -- after the import the submodule is an attribute of `m` (unless it is still being
         -- executed: then `IMPORT_FROM` falls back to `sys.modules`)
         match σ'.get F m n with
-        | some v => .ok (bindIn F sc loc σ' asn v)
-        | none => .ok (bindIn F sc loc σ' asn (.mod c))
+        | some v => .ok (outOf (bindIn F sc loc σ' asn v) none)
+        | none => .ok (outOf (bindIn F sc loc σ' asn (.mod c)) none)
 
 /-- the `from m import n` of every name of a star import, one after the other -/
-def execFroms (F : Facts) (imp : ModId → State → Except Err State) (sc : Scope) (m : ModId) :
+def execFroms (F : Facts) (imp : Imp) (sc : Scope) (m : ModId) :
     List Name → Ns → State → Res
-  | [], loc, σ => .ok (σ, loc)
+  | [], loc, σ => .ok ⟨σ, loc, none⟩
   | n :: r, loc, σ =>
     match execFrom F imp sc m n n loc σ with
     | .error e => .error e
-    | .ok (σ', loc') => execFroms F imp sc m r loc' σ'
+    | .ok ⟨σ', loc', some x⟩ => .ok ⟨σ', loc', some x⟩
+    | .ok ⟨σ', loc', none⟩ => execFroms F imp sc m r loc' σ'
+
+/-- what the interpreter is doing: executing; unwinding because of an `ImportError` for the absent
+third-party module `x` (looking for the handler of the innermost enclosing `try`: `d` counts the
+`try` statements opened while skipping, `r` the regions); or skipping the handler of a `try` whose
+body ran to its end -/
+inductive Mode where
+  | run
+  | raising (x : Nat) (d r : Nat)
+  | skipping (d r : Nat)
+  deriving Repr, Inhabited
 
 /-- execute a list of events; `imp` is the import machinery (`ensure`), `saved` the snapshots
 taken by `enter` -/
-def execEvs (F : Facts) (imp : ModId → State → Except Err State) (sc : Scope) :
-    List Ev → List (State × Ns) → Ns → State → Res
-  | [], _, loc, σ => .ok (σ, loc)
-  | ev :: rest, saved, loc, σ =>
+def execEvs (F : Facts) (imp : Imp) (sc : Scope) :
+    List Ev → Mode → List (State × Ns) → Ns → State → Res
+  | [], .raising x _ _, _, loc, σ => .ok ⟨σ, loc, some x⟩
+  | [], _, _, loc, σ => .ok ⟨σ, loc, none⟩
+  | ev :: rest, .raising x d r, saved, loc, σ =>
+    match ev with
+    | .tryBegin => execEvs F imp sc rest (.raising x (d + 1) r) saved loc σ
+    | .tryExcept =>
+      match d with
+      | 0 => execEvs F imp sc rest .run saved loc σ          -- the handler catches it
+      | _ + 1 => execEvs F imp sc rest (.raising x d r) saved loc σ
+    | .tryEnd => execEvs F imp sc rest (.raising x (d - 1) r) saved loc σ
+    | .enter => execEvs F imp sc rest (.raising x d (r + 1)) saved loc σ
+    | .leave =>
+      match r with
+      | r' + 1 => execEvs F imp sc rest (.raising x d r') saved loc σ
+      | 0 =>
+        match saved with
+        | [] => .error .malformed
+        | (s, l) :: more => execEvs F imp sc rest (.raising x d 0) more l s
+    | _ => execEvs F imp sc rest (.raising x d r) saved loc σ
+  | ev :: rest, .skipping d r, saved, loc, σ =>
+    match ev with
+    | .tryBegin => execEvs F imp sc rest (.skipping (d + 1) r) saved loc σ
+    | .tryEnd =>
+      match d with
+      | 0 => execEvs F imp sc rest .run saved loc σ
+      | d' + 1 => execEvs F imp sc rest (.skipping d' r) saved loc σ
+    | .enter => execEvs F imp sc rest (.skipping d (r + 1)) saved loc σ
+    | .leave =>
+      match r with
+      | r' + 1 => execEvs F imp sc rest (.skipping d r') saved loc σ
+      | 0 =>
+        match saved with
+        | [] => .error .malformed
+        | (s, l) :: more => execEvs F imp sc rest (.skipping d 0) more l s
+    | _ => execEvs F imp sc rest (.skipping d r) saved loc σ
+  | ev :: rest, .run, saved, loc, σ =>
     match ev with
     | .bind n =>
       match bindIn F sc loc σ n .obj with
-      | (σ', loc') => execEvs F imp sc rest saved loc' σ'
+      | (σ', loc') => execEvs F imp sc rest .run saved loc' σ'
     | .bindMod n m =>
       -- an import statement binds its module after the import: the module is in `sys.modules`
       match σ.statusOf m with
       | .absent => .error .malformed
       | _ =>
         match bindIn F sc loc σ n (.mod m) with
-        | (σ', loc') => execEvs F imp sc rest saved loc' σ'
+        | (σ', loc') => execEvs F imp sc rest .run saved loc' σ'
     | .unbind n =>
       if sc.fn.isSome then
         match lookup n loc with
-        | some _ => execEvs F imp sc rest saved (erase n loc) σ
+        | some _ => execEvs F imp sc rest .run saved (erase n loc) σ
         | none => .error (.nameError sc.mod sc.fn n)
       else
         match σ.get F sc.mod n with
-        | some _ => execEvs F imp sc rest saved loc (σ.set F sc.mod n none)
+        | some _ => execEvs F imp sc rest .run saved loc (σ.set F sc.mod n none)
         | none => .error (.nameError sc.mod sc.fn n)
     | .load n =>
       match lookupScope F σ sc loc n with
-      | some _ => execEvs F imp sc rest saved loc σ
+      | some _ => execEvs F imp sc rest .run saved loc σ
       | none => .error (.nameError sc.mod sc.fn n)
     | .attr root chain =>
       match lookupScope F σ sc loc root with
       | none => .error (.nameError sc.mod sc.fn root)
       | some v =>
         match walk F σ v chain with
-        | none => execEvs F imp sc rest saved loc σ
+        | none => execEvs F imp sc rest .run saved loc σ
         | some (p, a) => .error (.attrError sc.mod sc.fn root p a)
     | .ensure m =>
       match imp m σ with
       | .error e => .error e
-      | .ok σ' => execEvs F imp sc rest saved loc σ'
+      | .ok (σ', none) => execEvs F imp sc rest .run saved loc σ'
+      | .ok (σ', some x) => execEvs F imp sc rest (.raising x 0 0) saved loc σ'
     | .fromName m n asn =>
       match execFrom F imp sc m n asn loc σ with
       | .error e => .error e
-      | .ok (σ', loc') => execEvs F imp sc rest saved loc' σ'
+      | .ok ⟨σ', loc', none⟩ => execEvs F imp sc rest .run saved loc' σ'
+      | .ok ⟨σ', loc', some x⟩ => execEvs F imp sc rest (.raising x 0 0) saved loc' σ'
     | .star m =>
       match execFroms F imp sc m (starNames F σ m) loc σ with
       | .error e => .error e
-      | .ok (σ', loc') => execEvs F imp sc rest saved loc' σ'
+      | .ok ⟨σ', loc', none⟩ => execEvs F imp sc rest .run saved loc' σ'
+      | .ok ⟨σ', loc', some x⟩ => execEvs F imp sc rest (.raising x 0 0) saved loc' σ'
     | .noModule n => .error (.noModule sc.mod sc.fn n)
-    | .enter => execEvs F imp sc rest ((σ, loc) :: saved) loc σ
+    | .enter => execEvs F imp sc rest .run ((σ, loc) :: saved) loc σ
     | .leave =>
       match saved with
       | [] => .error .malformed
-      | (s, l) :: more => execEvs F imp sc rest more l s
+      | (s, l) :: more => execEvs F imp sc rest .run more l s
+    | .ext x =>
+      if F.isAbsent x then execEvs F imp sc rest (.raising x 0 0) saved loc σ
+      else execEvs F imp sc rest .run saved loc σ
+    | .tryBegin => execEvs F imp sc rest .run saved loc σ
+    | .tryExcept => execEvs F imp sc rest (.skipping 0 0) saved loc σ
+    | .tryEnd => execEvs F imp sc rest .run saved loc σ
 
 /-- the import machinery: `importMod F k m σ` makes sure `m` is in `sys.modules`, executing its
-code if it is not (`k` bounds the nesting depth of imports) -/
-def importMod (F : Facts) : Nat → ModId → State → Except Err State
+code if it is not (`k` bounds the nesting depth of imports).  If the code raises an
+`ImportError` that it does not catch, the module is removed from `sys.modules` again and the
+error goes on to the importer. -/
+def importMod (F : Facts) : Nat → Imp
   | 0, _, _ => .error .outOfFuel
   | k + 1, m, σ =>
     match F.modOf m with
     | none => .error .malformed
     | some M =>
-      match σ.statusOf m with
-      | .absent =>
-        match execEvs F (importMod F k) ⟨m, none⟩ M.evs [] [] (σ.setStatus m .running) with
+      let go (σ₀ : State) : Except Err (State × Option Nat) :=
+        match execEvs F (importMod F k) ⟨m, none⟩ M.evs .run [] [] (σ₀.setStatus m .running) with
         | .error e => .error e
-        | .ok (σ', _) =>
+        | .ok ⟨σ', _, some x⟩ => .ok (σ'.setStatus m .failed, some x)
+        | .ok ⟨σ', _, none⟩ =>
           -- fully initialised; it becomes an attribute of its package
           let σ'' := σ'.setStatus m .done
           match M.parent with
-          | none => .ok σ''
-          | some p => .ok (σ''.set F p M.short (some (.mod m)))
-      | _ => .ok σ
+          | none => .ok (σ'', none)
+          | some p => .ok (σ''.set F p M.short (some (.mod m)), none)
+      match σ.statusOf m with
+      | .absent => go σ
+      | .failed => go (σ.clearRow F m)
+      | _ => .ok (σ, none)
 
 /-- a fresh interpreter executes the entry module `e` (`import lena.X; from lena.X import *`) -/
-def importEntry (F : Facts) (e : ModId) : Except Err State :=
+def importEntry (F : Facts) (e : ModId) : Except Err (State × Option Nat) :=
   importMod F F.depth e State.init
 
-/-- a call of `f` (defined in module `m`) in state `σ`: all its loads, in source order -/
+/-- a call of `f` (defined in module `m`) in state `σ`: all its loads, in source order.  A call
+that ends with the `ImportError` of an absent third-party module has ended in the documented
+way: it returns the state it reached. -/
 def callFn (F : Facts) (m : ModId) (f : Func) (σ : State) : Except Err State :=
-  match execEvs F (importMod F F.depth) ⟨m, some f.name⟩ f.evs [] [] σ with
+  match execEvs F (importMod F F.depth) ⟨m, some f.name⟩ f.evs .run [] [] σ with
   | .error e => .error e
-  | .ok (σ', _) => .ok σ'
+  | .ok out => .ok out.σ
 
 /-! ## The resolver (the executable check) -/
 
@@ -483,16 +595,22 @@ def exportedB (F : Facts) (e : ModId) (σ : State) : Bool :=
         | none => false
       | _ => true)
 
-/-- the check for one entry point -/
+/-- the check for one entry point (in the environment `F.absent`) -/
 def resolvesEntry (F : Facts) (e : ModId) : Bool :=
   match importEntry F e with
   | .error _ => false
-  | .ok σ => σ.force (fun s => exportedB F e s && (explore F exploreBound [s] [s]).isClosed)
+  | .ok (_, some _) => false     -- the import itself needs a third-party module unconditionally
+  | .ok (σ, none) => σ.force (fun s => exportedB F e s && (explore F exploreBound [s] [s]).isClosed)
 
 /-- **the check**: for every entry point, the import and the star import succeed, the advertised
 names exist, and in every state reachable afterwards every callable function resolves -/
 def resolvesAll (F : Facts) : Bool :=
   F.layoutOk && F.entries.all (resolvesEntry F)
+
+/-- **the check over the environments**: `resolvesAll` in every environment of `F.envs`, i.e.
+whichever of the optional third-party modules (jinja2, …) can or cannot be imported -/
+def resolvesAllEnvs (F : Facts) : Bool :=
+  F.envs.all (fun env => resolvesAll (F.withEnv env))
 
 /-! ## Diagnosis (what the driver prints; mirrors `resolvesAll`, but collects the failures) -/
 
@@ -500,7 +618,10 @@ structure Finding where
   entry : ModId
   /-- `none`: the import of the entry itself -/
   func : Option (ModId × Name × Nat)
-  err : Err
+  /-- `none`: the import of the entry ends with the `ImportError` of an absent third-party module -/
+  err : Option Err
+  /-- that module -/
+  ext : Option Nat := none
   deriving Repr
 
 /-- states reachable by calls, ignoring failing calls -/
@@ -517,13 +638,14 @@ def reachStates (F : Facts) : Nat → List State → List State → List State
 
 def diagnoseEntry (F : Facts) (e : ModId) : List Finding :=
   match importEntry F e with
-  | .error err => [⟨e, none, err⟩]
-  | .ok σ =>
+  | .error err => [⟨e, none, some err, none⟩]
+  | .ok (_, some x) => [⟨e, none, none, some x⟩]
+  | .ok (σ, none) =>
     (reachStates F exploreBound [σ] [σ]).flatMap (fun s =>
       (callables F s).filterMap (fun (m, f) =>
         match callFn F m f s with
         | .ok _ => none
-        | .error err => some ⟨e, some (m, f.name, f.line), err⟩))
+        | .error err => some ⟨e, some (m, f.name, f.line), some err, none⟩))
 
 def diagnose (F : Facts) : List Finding := F.entries.flatMap (diagnoseEntry F)
 
@@ -582,7 +704,8 @@ def setToList (F : Facts) (S : Nat) : List ModId := (List.range F.mods.length).f
 
 /-- the modules in `sys.modules` in state `σ` -/
 def loadedMods (F : Facts) (σ : State) : List ModId :=
-  (List.range F.mods.length).filter (fun i => σ.statusOf i != .absent)
+  (List.range F.mods.length).filter (fun i =>
+    match σ.statusOf i with | .running | .done => true | _ => false)
 
 /-- the names bound in module `m` -/
 def boundIn (F : Facts) (σ : State) (m : ModId) : List (Name × Val) :=
